@@ -1366,6 +1366,17 @@ class Module:
             self.abstractions = {}
         self.abstractions[f] = (when, make)
 
+    def implied_by(self, qname, other_prop):
+        """The ASSUMED summary (`trusted=True` contract) this module states for `qname` is a consequence of the
+        contract that the sidecar module of `other_prop` PROVES for the same function: the check of this property
+        generates the refinement obligations (verify.verify_function(..., via=...): the proved contract's
+        precondition follows from the summary's, its outcomes are outcomes of the summary, its postconditions
+        imply the summary's) and RE-PROVES the other module's contract on the current tree (it carries this
+        property too).  A summary with a discharged refinement is not an assumption any more."""
+        if not hasattr(self, 'refinements'):
+            self.refinements = []
+        self.refinements.append((qname, other_prop))
+
     def check(self, name):
         def deco(fn):
             self.checks.append((name, fn))
